@@ -1318,6 +1318,29 @@ impl<'a> GeneratorState<'a> {
         pos: usize,
         load: bool,
     ) -> Result<(), Error> {
+        // A value must be loaded, a place must be stored to
+        let acceptable = match expr {
+            ExprType::Nothing | ExprType::Label(_) => false,
+            ExprType::Immediate(_) | ExprType::A(_) => load,
+            ExprType::Absolute(name, eight_bits, _) => {
+                // A constant pointer or an array named without a subscript is an address, not a cell
+                load || *eight_bits || {
+                    let v = self.variable_or_error(name, pos)?;
+                    !(v.var_type == VariableType::CharPtr && v.var_const)
+                }
+            }
+            _ => true,
+        };
+        if !acceptable {
+            return Err(self.compiler_state.syntax_error(
+                if load {
+                    "load needs a value"
+                } else {
+                    "store needs a memory cell or a register"
+                },
+                pos,
+            ));
+        }
         self.protected = true;
         match expr {
             ExprType::X => {
